@@ -89,6 +89,26 @@ type RefShape3 interface {
 
 func hex3(c C3) string { return Hex(c.X) + "," + Hex(c.Y) + "," + Hex(c.Z) }
 
+// radial splits d into its part along unit u and the unit radial direction.
+// When the radial part is so small that it is mostly rounding noise the
+// direction is re-orthogonalised (or replaced by an arbitrary perpendicular):
+// rho itself is returned unchanged, only the direction is sanitised.
+func radial(d, u C3) (h, rho float64, w, wh C3) {
+	h = Dot3(d, u)
+	w = Sub3(d, Scale3(u, h))
+	rho = Len3(w)
+	if rho > 0 {
+		wh = Scale3(w, 1/rho)
+		wh = Sub3(wh, Scale3(u, Dot3(wh, u)))
+		if l := Len3(wh); l > 0.5 {
+			wh = Scale3(wh, 1/l)
+			return
+		}
+	}
+	wh = AnyPerp3(u)
+	return
+}
+
 // ---------------------------------------------------------------------------
 // sphere
 
@@ -308,7 +328,10 @@ func (s RefCapsule) Eval(p C3) RefEval3 {
 	if r > 0 {
 		e.Smooth = true
 		e.Normal = Scale3(d, 1/r)
-		e.Near = Add3(c, Scale3(d, s.R/r))
+		if e.Piece == 0 { // on the side the direction is radial by definition
+			_, _, _, e.Normal = radial(d, u)
+		}
+		e.Near = Add3(c, Scale3(e.Normal, s.R))
 	} else {
 		e.Piece, e.Region = -1, "core"
 		e.Near = Add3(c, Scale3(AnyPerp3(u), s.R))
@@ -390,16 +413,7 @@ func (s RefCylinder) frame() (u C3, l float64) {
 
 func (s RefCylinder) Eval(p C3) RefEval3 {
 	u, l := s.frame()
-	d := Sub3(p, s.P1)
-	h := Dot3(d, u) // height above P1's plane
-	w := Sub3(d, Scale3(u, h))
-	rho := Len3(w)
-	var wh C3
-	if rho > 0 {
-		wh = Scale3(w, 1/rho)
-	} else {
-		wh = AnyPerp3(u)
-	}
+	h, rho, w, wh := radial(Sub3(p, s.P1), u) // h: height above P1's plane
 	z := h - l/2
 	a := rho - s.R         // > 0 outside laterally
 	b := math.Abs(z) - l/2 // > 0 outside axially
@@ -504,16 +518,7 @@ func (s RefCone) Cyl(p C3) (rho, z float64) {
 
 func (s RefCone) Eval(p C3) RefEval3 {
 	u, H := s.frame()
-	d := Sub3(p, s.Base)
-	z := Dot3(d, u)
-	w := Sub3(d, Scale3(u, z))
-	rho := Len3(w)
-	var wh C3
-	if rho > 0 {
-		wh = Scale3(w, 1/rho)
-	} else {
-		wh = AnyPerp3(u)
-	}
+	z, rho, w, wh := radial(Sub3(p, s.Base), u)
 	R := s.R
 	// Work in the half plane (rho >= 0, z): the boundary is the base radius
 	// A=(0,0)-B=(R,0) and the slant B=(R,0)-T=(0,H).
@@ -623,16 +628,7 @@ type RefTorus struct {
 
 func (s RefTorus) Eval(p C3) RefEval3 {
 	u := Unit3(s.Axis)
-	d := Sub3(p, s.C)
-	z := Dot3(d, u)
-	w := Sub3(d, Scale3(u, z))
-	rho := Len3(w)
-	var wh C3
-	if rho > 0 {
-		wh = Scale3(w, 1/rho)
-	} else {
-		wh = AnyPerp3(u)
-	}
+	z, rho, _, wh := radial(Sub3(p, s.C), u)
 	a := rho - s.Ro
 	sdist := math.Hypot(a, z)
 	e := RefEval3{SD: s.Ri - sdist, Region: "surface", Sing: math.Min(rho, sdist)}
